@@ -691,12 +691,21 @@ def check_imem(rust: Any, dump: Dict[str, Any]) -> List[Item]:
     py = {n: int(m.value) for n, m in IMEMRegisters.__members__.items()}
     rs = {k[len("memory.IMEM_"):-len("_OFFSET")]: int(v) for k, v in dump["consts"].items()
           if k.startswith("memory.IMEM_") and k.endswith("_OFFSET")}
+    # private copies observed behaviourally
+    extra: Dict[str, List[Tuple[str, Any]]] = {}
+    resp = rust.call({"cmd": "c17.timer_isr"})
+    if not resp.get("ok"):
+        raise HarnessError(f"c17.timer_isr failed: {resp}")
+    nz = [int(o) for o, _ in resp.get("nonzero", [])]
+    extra["ISR"] = [("rust timer.rs, byte set when the main timer fires",
+                     nz[0] if len(nz) == 1 and resp.get("fired") == [True, False] else f"unrecognised {resp}")]
     for n in sorted(set(py) | set(rs)):
         srcs: List[Tuple[str, Any]] = []
         if n in py:
             srcs.append((f"opcodes.IMEMRegisters.{n}", py[n]))
         if n in rs:
             srcs.append((f"rust memory::IMEM_{n}_OFFSET", rs[n]))
+        srcs += extra.get(n, [])
         it = Item(f"imem:{n}", len(srcs) >= 2, ["imem:" + ("both" if len(srcs) >= 2 else "python-only")],
                   {"name": n, "copies": {k: hex(v) for k, v in srcs}} if len(srcs) >= 2 else None)
         if n in rs and n not in py:
